@@ -134,7 +134,11 @@ theorem interval_eval_sound_given_enclosures (P : Prims) (F : RealFns K) (hP : P
         · rename_i hpos
           cases h
           have hpos' : 0 < x.1 := by simpa using hpos
-          exact hP.exp _ _ (hP.mul _ _ _ _ (ihb p hp hw.1.2 hreal') (hP.log _ _ (iha x hx hw.1.1 hw.2) hpos'))
+          have hxa := iha x hx hw.1.1 hw.2
+          have hposK : 0 < tval F a :=
+            lt_of_lt_of_le (by exact_mod_cast hpos') hxa.1
+          rw [if_pos hposK]
+          exact hP.exp _ _ (hP.mul _ _ _ _ (ihb p hp hw.1.2 hreal') (hP.log _ _ hxa hpos'))
         · cases h
       · cases h
   | pi =>
